@@ -359,6 +359,11 @@ def twin_one(job):
         scen.materialise(w, sc['tree0'], sc['series'], [('-R' if pt.get('rev') else '') for pt in sc['series']])
         ws.write(w, 'z', b'bystander\n')
         ws.write(w, 'zz/bystander', b'bystander\n', 0o600)
+        if threads % 2:
+            # read-only files: replacing them must not touch the mode of the (shared) inode either
+            for p, f in sc['tree0'].items():
+                if f['ex']:
+                    os.chmod(os.path.join(w, p), 0o444 if f['mode'] == '644' else 0o555)
         subprocess.run(['cp', '-al', w, twin], check=True)
         named = set()
         for pt in sc['series']:
